@@ -160,6 +160,17 @@ def check_tree(mtj, order=None):
                     bad('disco_order(%s)-permutation' % mode, list(range(1, mt.n() + 1)), order)
                 if tdeg == 0 and order != list(range(1, mt.n() + 1)):
                     bad('disco_order(%s)-identity-on-continuous' % mode, list(range(1, mt.n() + 1)), order)
+        # ... and on trees binarized by the tool itself (head-marked, child lists in both storage orders): the
+        # reordering is a permutation, and the identity when the tree was continuous
+        elif order is None:
+            from trees import transform
+            for mode, co in (('left', 'rev'), ('rightd', 'rev'), ('left', 1), ('rightd', 2), ('left', None)):
+                bt = transform.binarize(transform.negra_mark_heads(build(mt, child_order=co)))
+                got_order = [l.data['num'] for l in treeanalysis.disco_order(bt, mode)]
+                if sorted(got_order) != list(range(1, mt.n() + 1)):
+                    bad('disco_order(%s)-permutation after binarize' % mode, list(range(1, mt.n() + 1)), got_order)
+                if tdeg == 0 and got_order != list(range(1, mt.n() + 1)):
+                    bad('disco_order(%s)-identity-on-continuous after binarize' % mode, list(range(1, mt.n() + 1)), got_order)
     except Exception as e:
         out.append({'kind': 'exception', 'where': 'treeanalysis', 'case': case,
                     'detail': '%s: %s on %s' % (type(e).__name__, e, model.mt_str(mt.root)),
